@@ -29,7 +29,7 @@ CHECKS = {
          "Every interleaving up to the length bound of outer items/terminals and inner items/terminals over cold and hot inner observables is run through merge_all(n)/concat_all/flatten/flat_map/concat_map (both forms); exact output, concurrency limit, and return of every call are checked at every step.", "5/C05"),
  "C06": ([E1, E2], "bounded-exhaustive enumeration of operation sequences on the five real subject types against a list model; plus exhaustive preemption-bounded DFS over interleavings of 2-3 threads sharing a SubjectThreads",
          "Every sequence up to the length bound of subscribe/unsubscribe/next/error/complete/retain/unsubscribe-subject/subscribe-from-a-callback is executed on each subject type; all probe traces and API answers are compared with the model after every operation. (The concurrent half is served by engine E2 ; see coverage.engines in the evidence file.)", "5/C06"),
- "C07": ([E1], "bounded-exhaustive enumeration of timed source scripts x deviation-bounded scheduler run orders (FIFO and any-ready-task-next executor models) on the real observe_on/delay/subscribe_on family under a virtual clock",
+ "C07": ([E1, E2], "bounded-exhaustive enumeration of timed source scripts x deviation-bounded scheduler run orders (FIFO and any-ready-task-next executor models) on the real observe_on/delay/subscribe_on family under a virtual clock; plus exhaustive preemption-bounded DFS over interleavings of emitting threads with the per-notification pool tasks of observe_on_threads / delay_threads (nothing lost, invented or duplicated)",
          "Every sequence up to the length bound of source events, clock ticks and task runs is executed for observe_on, delay, delay_at, delay_subscription(_at), subscribe_on (both forms where they exist) under the FIFO-prompt model and under the any-order model with a bounded number of deviations; no invention/duplication/early delivery ever, exact order and timing under FIFO, completeness once everything ran out.", "5/C07"),
  "C08": ([E1], "bounded-exhaustive enumeration of clock advances, poll orders and async scripts on the real interval/timer/from_future/from_stream sources under a virtual clock",
          "Every environment sequence up to the length bound (single ticks, jumps over several periods, run order of ready tasks within the deviation bound, wake-ups of pending futures/streams, every async script up to the length bound) is executed; values, earliest times, exact times under the prompt model and relay completeness are checked after every step.", "5/C08"),
